@@ -7,6 +7,7 @@ from ..report import AnalysisError
 from ..srcmodel import unparse, norm, walk_no_nested, calls_in, fold_const
 from .common import (is_method_call, recv_of, get_kw, node_obj, F3, fde_guard, cfg_of, facts_at, find_stmt_node)
 from . import mergerules as mr
+from . import mergetrace as mt
 from .tagtable import check_flag_tags, constructors
 
 PROP = 'C08'
@@ -21,42 +22,11 @@ UNDECIDED = ['the a.b[i].c=value text grammar;', '"nothing else changes" as data
 
 
 def r1_replacement(repo, run):
-    fi = repo.func('ComposedNode.ayns.on_merge_impl')
-    g = cfg_of(fi)
-    # the return inside the `if other.ayns.delete` block that hands back other (wholesale replacement)
-    n = 0
-    for s in walk_no_nested(fi.node):
-        if isinstance(s, ast.If) and norm(s.test) == 'other.ayns.delete':
-            for r in walk_no_nested(ast.FunctionDef(name='_', body=s.body, decorator_list=[], args=None)):
-                if isinstance(r, ast.Return):
-                    n += 1
-                    node = [x for x in g.nodes if x.ast is r][0]
-                    seen = False
-                    # must-precede within the enclosing block: _require_all_new on other with exceptions
-                    from .. import cfg as cfgmod
-                    ok = cfgmod.must_have_seen(g, lambda c: is_method_call(c, recv='other', member='_require_all_new', ayns=True) and get_kw(c, 'exceptions') is not None)[0][node.id]
-                    if ok:
-                        run.ok('C08.R1', (fi.file, r.lineno, fi.qualname), 'wholesale replacement: ' + norm(r), 'other.ayns._require_all_new(path, exceptions=removed) precedes')
-                    else:
-                        run.violation('C08.R1', fi, 'wholesale replacement: ' + norm(r), 'the newer subtree replaces the older one without the new-path check', node=r)
-    if n != 1:
-        raise AnalysisError('wholesale replacement return not recognised (%d candidates)' % n)
+    mt.wholesale_check(repo, run, 'C08.R1')
 
 
 def r2(repo, run):
-    fi = repo.func('Builder.flatten')
-    req = [c for c in calls_in(fi.node) if is_method_call(c, member='_require_all_new', ayns=True)]
-    fold = [s for s in fi.node.body if isinstance(s, ast.For) and any(is_method_call(c, member='merge', ayns=True) for c in calls_in(s))]
-    if not fold:
-        raise AnalysisError('fold loop not found')
-    okc = [c for c in req if norm(recv_of(c)) == 'self.stages[0]' and c.args and norm(c.args[0]) in ('[]', 'NodePath()') and c.lineno < fold[0].lineno]
-    # it must run on every path to the fold, including the single-stage return
-    rets = [s for s in walk_no_nested(fi.node) if isinstance(s, ast.Return)]
-    early = [r for r in rets if okc and r.lineno < okc[0].lineno]
-    if not okc or early:
-        run.violation('C08.R2', fi, 'first-stage new-path check', 'the first document is not checked with self.stages[0].ayns._require_all_new([], ...) before folding / returning')
-    else:
-        run.ok('C08.R2', (fi.file, okc[0].lineno, fi.qualname), unparse(okc[0])[:100], 'before the fold and before the single-stage return')
+    mt.first_stage_check(repo, run, 'C08.R2')
     mg = repo.func('ConfigNode.ayns.merge')
     res = {}
     for an in (None, True, False):
@@ -117,46 +87,45 @@ def r3(repo, run):
     else:
         run.ok('C08.R3', leaf, 'leaf _require_all_new raises iff not allow_new, included and not excepted (18 rows)')
     comp = repo.func('ComposedNode.ayns._require_all_new')
-    walks = [c for c in calls_in(comp.node) if is_method_call(c, recv='self', member='nodes_with_paths', ayns=True)]
-    loops = [s for s in walk_no_nested(comp.node) if isinstance(s, ast.For)]
+    # evaluated with the walk replaced by a two-element sequence: semantics of the loop, whatever its shape
     probs = []
-    if len(walks) != 1 or len(loops) != 1:
-        raise AnalysisError('ComposedNode._require_all_new: walk not recognised')
-    w = walks[0]
-    if norm(get_kw(w, 'prefix') or ast.Constant(value=None)) != comp.params()[1]:
-        probs.append('walk is not prefixed with the path argument')
-    if norm(get_kw(w, 'include_self') or ast.Constant(value=None)) != 'include_self':
-        probs.append('include_self is not passed to the walk')
-    rec = get_kw(w, 'recursive')
-    if rec is not None and not (isinstance(rec, ast.Constant) and rec.value is True):
-        probs.append('walk is not recursive')
-    lp = loops[0]
-    early = [s for s in walk_no_nested(comp.node) if isinstance(s, (ast.Return, ast.Break, ast.Continue))]
-    if early:
-        probs.append('early %s in the walk (%s)' % (type(early[0]).__name__.lower(), norm(early[0])))
-    tests = [s for s in lp.body if isinstance(s, ast.If)]
-    if len(lp.body) != 1 or len(tests) != 1 or not any(isinstance(x, ast.Raise) for x in tests[0].body):
-        probs.append('loop body is not a single `if <not allowed>: raise`')
-    else:
-        p_, n_ = [e.id for e in lp.target.elts]
-        f = FDE(repo)
-        for i in F3:
-            for exc in (None, ['p'], ['q']):
-                o = node_obj('n', _implicit_allow_new=i)
-                try:
-                    fde_guard(lambda: f._run([tests[0]], {p_: 'p', n_: o, 'exceptions': exc, 'reason': 'r', 'path': 'p'}, comp))
-                    raised = False
-                except Exception as e:  # Raised
-                    if type(e).__name__ != 'Raised':
-                        raise
-                    raised = True
-                exp = (i is False) and (exc is None or 'p' not in exc)
-                if raised != exp:
-                    probs.append('node allow_new=%r exceptions=%r -> raised=%r' % (i, exc, raised))
+    rows = 0
+    for i1 in F3:
+        for i2 in F3:
+            for exc in (None, ['p/a'], ['p/b'], ['p/a', 'p/b'], ['q']):
+                for inc in (True, False):
+                    n1, n2 = node_obj('n1', _implicit_allow_new=i1), node_obj('n2', _implicit_allow_new=i2)
+                    me = node_obj('me', 'ComposedNode')
+                    walks = []
+
+                    def stub(name, recv, args, kwargs, walks=walks, n1=n1, n2=n2):
+                        walks.append((recv, list(args), dict(kwargs)))
+                        return [('p/a', n1), ('p/b', n2)]
+                    f = FDE(repo, stubs={'nodes_with_paths'}, stub=stub)
+                    r = fde_guard(lambda: f.call(comp, me, 'p', 'reason', exceptions=exc, include_self=inc))
+                    rows += 1
+                    exp = any(i is False and (exc is None or pth not in exc) for i, pth in ((i1, 'p/a'), (i2, 'p/b')))
+                    if bool(r.raised) != exp and len(probs) < 4:
+                        probs.append('nodes allow_new=(%r, %r) exceptions=%r -> raised=%r (expected %r)' % (i1, i2, exc, r.raised, exp))
+                    if not walks:
+                        if exp and 'returns without walking the subtree although a descendant forbids new paths' not in probs:
+                            probs.append('returns without walking the subtree although a descendant forbids new paths')
+                        continue
+                    if len(walks) != 1 or walks[0][0] is not me:
+                        raise AnalysisError('ComposedNode._require_all_new: walk not recognised')
+                    _, wa, wk = walks[0]
+                    prefix = wk.get('prefix', wa[0] if wa else None)
+                    if prefix != 'p' and 'walk is not prefixed with the path argument' not in probs:
+                        probs.append('walk is not prefixed with the path argument')
+                    if wk.get('include_self', False) is not inc and 'include_self is not passed to the walk' not in probs:
+                        probs.append('include_self is not passed to the walk')
+                    if wk.get('recursive', True) is not True and 'walk is not recursive' not in probs:
+                        probs.append('walk is not recursive')
+    run.table('C08.R3:container', rows, 'container _require_all_new over two visited nodes x exceptions x include_self')
     if probs:
         run.violation('C08.R3', comp, 'container _require_all_new', '; '.join(probs))
     else:
-        run.ok('C08.R3', comp, 'container _require_all_new: walks nodes_with_paths(prefix=path, include_self=include_self), raises iff a node is not allowed and not excepted (9 rows)')
+        run.ok('C08.R3', comp, 'container _require_all_new: walks nodes_with_paths(prefix=path, include_self=include_self), raises iff a visited node is not allowed and not excepted (%d rows)' % rows)
     # no other class overrides it
     for fi in repo.cha('_require_all_new', ayns=True):
         if fi not in (leaf, comp):
